@@ -199,11 +199,16 @@ class PageFeatureProcessor:
         """Helper to apply body border_first logic."""
         if isinstance(document.rtf_body.border_first, list):
             border_first_row = document.rtf_body.border_first[0]
-            has_border_top = (
-                document.rtf_body.border_top
-                and isinstance(document.rtf_body.border_top, list)
-                and len(document.rtf_body.border_top[0]) > len(border_first_row)
+            # A per-column border_top the user put on THIS row wins over
+            # border_first. page_attrs holds the page's own rows and displayed
+            # columns (the document-level matrix starts at table row 0 and
+            # still contains the columns removed by page_by/subline_by).
+            first_row_border_top = (
+                page_attrs.border_top[0]
+                if isinstance(page_attrs.border_top, list) and page_attrs.border_top
+                else []
             )
+            has_border_top = len(first_row_border_top) > len(border_first_row)
 
             for col_idx in range(page_df_width):
                 if col_idx < len(border_first_row):
@@ -213,10 +218,10 @@ class PageFeatureProcessor:
 
                 if (
                     has_border_top
-                    and col_idx < len(document.rtf_body.border_top[0])
-                    and document.rtf_body.border_top[0][col_idx]
+                    and col_idx < len(first_row_border_top)
+                    and first_row_border_top[col_idx]
                 ):
-                    border_style = document.rtf_body.border_top[0][col_idx]
+                    border_style = first_row_border_top[col_idx]
 
                 self._apply_border_to_cell(
                     page_attrs, 0, col_idx, "top", border_style, page_shape
